@@ -68,6 +68,9 @@ class VLock:
         self.count -= 1
         if self.count == 0:
             self.owner = None
+            # a thread can be preempted right after it has released a lock, before its next statement (a value read under the
+            # lock and re-read after it may have changed by then)
+            s.yield_point('lock.released')
 
     def locked(self):
         return self.owner is not None
